@@ -100,7 +100,7 @@ def check(run):
         specs = [s for i, s in enumerate(specs) if i % 2 == run.seed % 2 or s.prefix == "é界/"]
     r = gen.rng_for(run.seed, "c03")
     for i in range(4000 if thorough else 600):
-        s = strgen.build(r, "R%d" % i, list(A_DERIVES), allow_default=False, allow_aci=False, allow_prefix=True, distinct_lengths=True,
+        s = strgen.build(r, "R%d" % i, list(A_DERIVES), allow_default=False, allow_aci=True, allow_prefix=True, distinct_lengths=True,
                          generics_pool=(None, None, "T", "N", "Tw", "Tdef"), n=r.choice([1, 2, 3, 5, 7]), dup_within_variant=False, allow_braces=True)
         s.const_into_str = r.random() < 0.4
         specs.append(s)
